@@ -20,6 +20,7 @@ Layer 2, geometry (validators on exact rationals): `cornerJac`, `rightHanded`.
 -/
 import CBV.Model.Common
 import CBV.Gen.Tables
+import CBV.Model.C11Geo
 
 namespace CBV.C11
 
@@ -458,6 +459,6 @@ def handle (op : String) (args : List String) : Option String :=
       let ps ← pts.mapM parseV3?
       if ps.length != 8 then none else
       some (if rightHanded ps then "ok" else "fail " ++ showNatList (badCorners ps))
-  | _, _ => none
+  | _, _ => handleGeo (fun n => (findSketch n).map (·.quads)) op args
 
 end CBV.C11
